@@ -21,7 +21,8 @@ from ..engine import EngineBase, State
 from ..groups import GROUPS, norm_charge
 
 TOPOLOGIES = ["chain2", "chain3", "chain4", "triangle", "star", "double", "chain_double",
-              "triangle_double", "braket1", "braket2", "braket2", "braket_double"]
+              "triangle_double", "braket1", "braket2", "braket2", "braket_double",
+              "triple", "chain_triple", "square"]
 
 
 def topology_edges(name):
@@ -34,6 +35,9 @@ def topology_edges(name):
         "double": (2, [(0, 1), (0, 1)]),
         "chain_double": (3, [(0, 1), (0, 1), (1, 2)]),
         "triangle_double": (3, [(0, 1), (1, 2), (0, 2), (0, 1)]),
+        "triple": (2, [(0, 1), (0, 1), (0, 1)]),
+        "chain_triple": (3, [(0, 1), (0, 1), (0, 1), (1, 2)]),
+        "square": (4, [(0, 1), (1, 2), (2, 3), (0, 3)]),
         "braket1": (1, []),
         "braket2": (2, [(0, 1)]),
         "braket_double": (2, [(0, 1), (0, 1)]),
@@ -48,7 +52,7 @@ def gen_network(rng, cfg, labels):
     legs = [[] for _ in range(nt)]
     idx = [[] for _ in range(nt)]
     for k, (a, b) in enumerate(edges):
-        ix = specs.gen_index(rng, sym, max_charges=cfg["max_charges"], max_size=2)
+        ix = specs.gen_index(rng, sym, max_charges=cfg["max_charges"], max_size=cfg.get("max_size", 2))
         name = f"b{k}"
         if rng.random() < 0.5:
             a, b = b, a
@@ -62,7 +66,8 @@ def gen_network(rng, cfg, labels):
             if nd >= 4:
                 break
             legs[t].append(f"d{nd}")
-            idx[t].append(specs.gen_index(rng, sym, max_charges=cfg["max_charges"], max_size=2))
+            idx[t].append(specs.gen_index(rng, sym, max_charges=cfg["max_charges"],
+                                          max_size=cfg.get("max_size", 2)))
             nd += 1
     tensors = []
     for t in range(nt):
@@ -159,6 +164,9 @@ def gen_route(rng, net, canonical=False):
             d["mode"] = rng.choice(["auto", "fused", "blockwise"])
             if rng.random() < 0.3:
                 d["style"] = "matmul_if_possible"
+            d["axes_form"] = rng.choice(["tuple", "tuple", "int_if_possible", "negative", "list"])
+            # a final full contraction may also be asked for as a plain number
+            d["plain"] = rng.random() < 0.5
         k += 1
         out.append(d)
         new = [l for l in la if l not in bonds] + [l for l in lb if l not in bonds]
@@ -167,7 +175,8 @@ def gen_route(rng, net, canonical=False):
     (t, lg), = cur.items()
     dup = sorted({l for l in lg if lg.count(l) == 2})
     if dup:
-        out.append({"op": "trace", "t": t, "legs": dup})
+        out.append({"op": "trace", "t": t, "legs": dup,
+                    "use_trace": (not canonical) and rng.random() < 0.5})
     return out
 
 
@@ -224,7 +233,17 @@ def run_route(values, legs, decisions, stats=None, audit_cb=None, derived=None):
             lhs = "".join(letters[l] for l in names)
             keep = [l for l in names if l not in d["legs"]]
             rhs = "".join(letters[l] for l in keep)
-            cur[t] = cur[t].einsum(f"{lhs}->{rhs}", preserve_array=True)
+            x = cur[t]
+            if (d.get("use_trace") and x.ndim == 2 and not keep
+                    and x.indices[0].dual != x.indices[1].dual):
+                # the two-index special case through the public trace()
+                val = x.trace()
+                cur[t] = val
+                lg[t] = keep
+                if stats is not None:
+                    stats["route.trace_method"] += 1
+                continue
+            cur[t] = x.einsum(f"{lhs}->{rhs}", preserve_array=True)
             lg[t] = keep
             if stats is not None:
                 stats["route.trace_by_einsum"] += 1
@@ -248,7 +267,25 @@ def run_route(values, legs, decisions, stats=None, audit_cb=None, derived=None):
                 if stats is not None:
                     stats["route.matmul"] += 1
             else:
-                C = sr.tensordot(A, B, axes=(ax_a, ax_b), preserve_array=True, **kw)
+                axes = (tuple(ax_a), tuple(ax_b))
+                form = d.get("axes_form", "tuple")
+                n = len(bonds)
+                if (form == "int_if_possible" and ax_a == list(range(A.ndim - n, A.ndim))
+                        and ax_b == list(range(n))):
+                    axes = n
+                    if stats is not None:
+                        stats["route.int_axes"] += 1
+                elif form == "negative":
+                    axes = (tuple(i - A.ndim for i in ax_a), tuple(i - B.ndim for i in ax_b))
+                elif form == "list":
+                    axes = [list(ax_a), list(ax_b)]
+                full = (len(cur) == 2 and A.ndim == n and B.ndim == n)
+                if d.get("plain") and full:
+                    C = sr.tensordot(A, B, axes=axes, **kw)
+                    if stats is not None:
+                        stats["route.plain_scalar_result"] += 1
+                else:
+                    C = sr.tensordot(A, B, axes=axes, preserve_array=True, **kw)
             if stats is not None:
                 stats["route.contract"] += 1
                 if len(bonds) == 0:
@@ -340,13 +377,14 @@ class C04(EngineBase):
     def make_config(self, streams, tier):
         r = streams.get("config")
         return {
-            "sym": r.choice(["Z2", "U1", "Z2Z2", "U1U1"]),
+            "sym": r.choice(["Z2", "U1", "Z2Z2", "U1U1", "Z2", "U1", "Z2Z2", "U1U1", "Z4"]),
             "topology": r.choice(TOPOLOGIES),
             "dangling": r.choice([[0], [0, 1], [0, 1, 2], [1, 2]]),
             "max_charges": r.choice([2, 2, 3]),
             "sparsity": r.choice([0.0, 0.15, 0.4]),
             "parities": r.choice(["mixed", "mixed", "odd", "even"]),
             "static": r.random() < 0.6,
+            "max_size": r.choice([2, 2, 3]),
             "dtype": r.choice(["float64", "complex128"]),
             "nroutes": r.choice([6, 10]) if tier == "quick" else r.choice([12, 24]),
             "maxsize": r.choice([0, 1, 8192]),
